@@ -84,7 +84,7 @@ def run(h, log, extra=None, timeout=None, mem_gb=10):
     return res
 
 
-RE_CHECK = re.compile(r"^Check \d+: (\S+)\n\t - Status: (\w+)\n\t - Description: \"(.*)\"\n\t - Location: (.*)$", re.M)
+RE_CHECK = re.compile(r"^Check \d+: (.+)\n\t - Status: (\w+)\n\t - Description: \"(.*)\"\n\t - Location: (.*)$", re.M)
 
 
 def parse(text):
